@@ -103,6 +103,7 @@ def main(argv: List[str]) -> int:
     only_h = None
     if "--harness" in argv:
         only_h = argv[argv.index("--harness") + 1]
+    only_m = argv[argv.index("--match") + 1] if "--match" in argv else None  # developer filter on a job's fixed dict
     seed = int(os.environ.get("VERIF_SEED", "0") or 0)
     njobs = int(os.environ.get("VERIF_JOBS", str(os.cpu_count() or 4)))
     t_start = time.time()
@@ -120,6 +121,8 @@ def main(argv: List[str]) -> int:
             excl = [k["predicate"] for k in kn]
             speclist = spec.get(tier) or spec.get("quick") or []
             for i, js in enumerate(speclist):
+                if only_m and only_m not in json.dumps(js.get("fixed", {})):
+                    continue
                 payload = {
                     "fixed": js.get("fixed", {}),
                     "timeout": js.get("timeout", 120),
